@@ -552,7 +552,12 @@ class ExprMixin:
             return self.do_open(args, kw, n, st, frame, out)
         if d == "tempfile.NamedTemporaryFile":
             dirv = kw.get("dir") or (args[2] if len(args) > 2 else V(("unknown", "tmpdir")))
-            site = (frame.func.qual, n.lineno, frame.ctx)
+            chain = []
+            fr = frame
+            while fr is not None and fr.callnode is not None:
+                chain.append(getattr(fr.callnode, "lineno", 0))
+                fr = fr.parent
+            site = (frame.func.qual, n.lineno, frame.ctx, tuple(chain))
             res = set()
             self.raise_star(st, out)
             for dt in dirv:
